@@ -139,6 +139,7 @@ def run(ctx):
     # a real NTLM security context from pyspnego, created by the library's own AuthenticationProvider (so with the context
     # requirements the library asks for): quick = a sample of the alterations, thorough = 400 per signing mode
     real_ntlm(ctx)
+    stripped_handshakes(ctx)
 
 
 def pick(alts, k):
@@ -149,6 +150,62 @@ def pick(alts, k):
     rest = alts[k // 3:]
     step = max(1, len(rest) // (k - len(head)))
     return head + rest[::step][:k - len(head)]
+
+
+def stripped_handshakes(ctx):
+    """a party WITHOUT the session key answers the authenticated bind: acks with or without tokens / security trailers, then a CLEARTEXT
+    response carrying a stub of its choice.  Whatever the handshake makes of it, request() must never hand that stub to the caller
+    (both clients; provider scripts of 1..3 legs)."""
+    import itertools
+    from props import c15
+    from dpapi_ng import _rpc as r
+    from dpapi_ng._rpc import _request
+    alpha = c15.server_alphabet(ctx.rng)
+    evil = b"KEY MATERIAL CHOSEN BY THE ADVERSARY"
+    clear = rpcfmt.finalize(_request.Response(header=r.PDUHeader(5, 0, r.PacketType.RESPONSE, r.PacketFlags(3), r.DataRep(), 0, 0, 1), sec_trailer=None,
+                                               alloc_hint=len(evil), context_id=0, cancel_count=0, stub_data=evil))
+    provider_scripts = [[(b"c1", True)], [(b"c1", False), (b"c2", True)], [(b"c1", False), (b"c2", False), (b"c3", True)]]
+    ack_names = ["ackAA1n", "ackAA0n", "ackAA1t", "ackAA0t"]
+    for sc in provider_scripts:
+        for k in (1, 2, 3):
+            for acks in itertools.product(ack_names, repeat=k):
+                if k == 3 and ctx.rng.random() > 0.3 and not ctx.thorough:
+                    continue
+                for use_async in (False, True):
+                    replies = [alpha[a](i) for i, a in enumerate(acks)] + [clear, clear]
+                    prov = rpcfmt.ScriptedProvider(script=list(sc))
+                    got = {"stub": None, "bind": None}
+
+                    def drive_sync():
+                        sock = rpcsim.FakeSocket(replies=list(replies))
+                        c = rpcsim.sync_client(sock, prov)
+                        c.bind(c15.contexts())
+                        got["bind"] = "ok"
+                        got["stub"] = bytes(c.request(0, 0, b"getkey stub").stub_data)
+
+                    async def drive_async():
+                        reader = asyncio.StreamReader()
+                        pending = list(replies)
+
+                        def on_write(data):
+                            if pending:
+                                reader.feed_data(pending.pop(0))
+                            else:
+                                reader.feed_eof()
+                        c = rpcsim.async_client(reader, rpcsim.FakeWriter(on_write), prov)
+                        await asyncio.wait_for(c.bind(c15.contexts()), 2)
+                        got["bind"] = "ok"
+                        got["stub"] = bytes((await asyncio.wait_for(c.request(0, 0, b"getkey stub"), 2)).stub_data)
+                    try:
+                        asyncio.run(drive_async()) if use_async else drive_sync()
+                    except Exception:  # noqa  (any error is the right outcome)
+                        pass
+                    ctx.count("stripped_handshake:" + ("bind_ok" if got["bind"] else "bind_error"))
+                    if got["stub"] is not None and evil in got["stub"]:
+                        ctx.violation("a stub chosen by a party without the session key is returned on an authenticated connection",
+                                      {"provider_script": [(hx(t), d) for t, d in sc], "server_script": list(acks) + ["cleartext response"], "async": use_async, "scenario": "stripped_handshakes"},
+                                      hx(got["stub"])[:60], "error")
+                        return
 
 
 def real_ntlm(ctx):
@@ -219,6 +276,12 @@ def search(ctx, broken, disagreements):
 def replay(ctx, payload):
     v = payload["violation"]["input"]
     print("recorded input:", str(v)[:200])
+    if v.get("scenario") == "stripped_handshakes":
+        c2 = type(ctx)(ctx.prop, "quick", ctx.seed)
+        stripped_handshakes(c2)
+        for x in c2.violations[:3]:
+            print(" ", x["what"], x["input"], x["observed"][:60])
+        return not c2.violations
     if "wire" not in v:          # found with the real NTLM context (stateful sealing: the whole run is repeated)
         c2 = type(ctx)(ctx.prop, "quick", ctx.seed)
         real_ntlm(c2)
